@@ -23,7 +23,7 @@ import time
 from concurrent.futures import ThreadPoolExecutor
 
 VERIF = os.path.dirname(os.path.abspath(__file__))
-REPO = "/repo"
+REPO = os.environ.get("VERIF_REPO", "/repo")  # development only: checks are registered without it and build /repo
 BUILD = os.path.join(VERIF, "build")
 BIN = os.path.join(BUILD, "bin")
 TMP = os.path.join(BUILD, "tmp")
